@@ -151,8 +151,8 @@ func (s *sessionSpec) session() *expect.Session {
 
 func Run(cfg fw.Config, rec *fw.Rec) {
 	log.SetOutput(io.Discard)
-	rec.Rule = "sessions of 1-3 steps, 0-3 expected outputs per step over 6 patterns, inverted outputs, guards {none, accept, reject, accept-if}, run with /bin/cat as the subprocess so that the emitted stream is exactly the session's inputs (duplicates of one expected message while another never arrives, never-arriving messages with 120 ms timeouts, non-JSON noise); oracle: Run()==nil implies the reference window model justifies a pass under some resolution; non-trivial = session with >= 2 expected outputs in some step that the tool passed, or any session the tool failed; distinct by session"
-	rec.Required = []string{"tool_passed_and_justified", "tool_failed", "family_duplicate_instead_of_other", "family_rejecting_guard", "family_inverted", "family_never_arrives", "family_noise"}
+	rec.Rule = "sessions of 1-3 steps, 0-3 expected outputs per step over 6 patterns, inverted outputs, guards {none, accept, reject, accept-if}, run with /bin/cat as the subprocess so that the emitted stream is exactly the session's inputs (duplicates of one expected message while another never arrives, never-arriving messages with 120 ms timeouts, non-JSON noise); a third of the passing sessions are run a second time - their outputs now carry recorded bindings - on a stream that meets no expectation and must fail; oracle: Run()==nil implies the reference window model justifies a pass under some resolution; non-trivial = session with >= 2 expected outputs in some step that the tool passed, or any session the tool failed; distinct by session"
+	rec.Required = []string{"tool_passed_and_justified", "tool_failed", "family_duplicate_instead_of_other", "family_rejecting_guard", "family_inverted", "family_never_arrives", "family_noise", "rerun_with_recorded_bindings_failed_as_it_must"}
 	rec.Assume = []string{"slowness can only turn a pass into a timeout failure, never the reverse, so load cannot cause a false alarm", "the reference is at least as permissive as the documentation: windows may extend into later steps' lines, a step without positive expectations may or may not consume a line"}
 	n := cfg.Pick(1500, 20000)
 	fw.Parallel(cfg.Workers, n, func(w, i int) {
@@ -215,6 +215,41 @@ func Run(cfg fw.Config, rec *fw.Rec) {
 		if err == nil && !want {
 			rec.Violation("C19:unjustified-pass:"+family, "the tool passed a session whose expectations the emitted stream does not meet", s)
 			return
+		}
+		// Leftovers: the outputs of a session that has been run keep the bindings that were
+		// recorded ("bs"), and a session file can carry them too.  Run the same Session again
+		// with inputs that cannot satisfy it: it must not pass.
+		if err == nil && i%3 == 0 {
+			for k := range sess.IOs {
+				sess.IOs[k].Inputs = []interface{}{`{"unrelated":1}`, `noise`, `{"unrelated":2}`}
+			}
+			s2 := &sessionSpec{}
+			for _, st := range s.Steps {
+				s2.Steps = append(s2.Steps, stepSpec{Inputs: []string{`{"unrelated":1}`, `noise`, `{"unrelated":2}`}, Outputs: st.Outputs})
+			}
+			positives := 0
+			for _, st := range s.Steps {
+				for _, o := range st.Outputs {
+					if !o.Inverted {
+						positives++
+					}
+				}
+			}
+			if positives > 0 && !justified(s2) {
+				ctx2, cancel2 := context.WithTimeout(context.Background(), 20*time.Second)
+				var err2 error
+				p2 := rec.Guard("C19:rerun", s, func() { err2 = sess.Run(ctx2, "", "/bin/cat") })
+				cancel2()
+				if p2 {
+					return
+				}
+				rec.Eval(1)
+				if err2 == nil {
+					rec.Violation("C19:unjustified-pass:session-with-recorded-bindings", "a session whose outputs carry bindings recorded by an earlier run passed on a stream that meets none of its expectations", map[string]interface{}{"session": s, "second_stream": s2.Steps[0].Inputs})
+					return
+				}
+				rec.Bucket("rerun_with_recorded_bindings_failed_as_it_must")
+			}
 		}
 		hasNoise, never, inverted := false, false, false
 		for _, st := range s.Steps {
